@@ -271,6 +271,15 @@ func (ex *Exec) havocEverything(st *State) {
 	st.advanceAlloc("alloc")
 }
 
+// butKey: the key under which a type named in an everything_but clause is recorded (the
+// struct family key, or the map family for a map type).
+func butKey(t types.Type) string {
+	if mt, ok := t.Underlying().(*types.Map); ok {
+		return mapFam(mt)
+	}
+	return typeKey(t)
+}
+
 // butTypes: struct types named in everything_but clauses, by family key.
 var butTypes = map[string]types.Type{}
 
@@ -281,6 +290,22 @@ func (ex *Exec) havocEverythingBut(st *State, keys []string) {
 	keep := map[string]*Term{}
 	for _, key := range keys {
 		t := butTypes[key]
+		if mt, ok := t.Underlying().(*types.Map); ok {
+			// a map type: the contents of every existing map of that type are preserved
+			fam := mapFam(mt)
+			for n, h := range st.Heap {
+				if strings.HasPrefix(n, fam+"|") {
+					keep[n] = h
+				}
+			}
+			ks := keySort(mt.Key())
+			keep[fam+"|present"] = st.heap(fam+"|present", ArraySort(RefSort, ArraySort(ks, BoolSort)))
+			keep[fam+"|card"] = st.heap(fam+"|card", ArraySort(RefSort, IntSort))
+			for _, lf := range leavesOf(mt.Elem()) {
+				keep[fam+"|v|"+lf.Name] = st.heap(fam+"|v|"+lf.Name, ArraySort(RefSort, ArraySort(ks, lf.Sort)))
+			}
+			continue
+		}
 		for _, lf := range leavesOf(t) {
 			if lf.ElemKey != "" {
 				continue // array-typed fields live in the element families: havocked
@@ -917,7 +942,7 @@ func (ex *Exec) havocSpecLoc(env *SpecEnv, st *State, e ast.Expr) {
 					if absent {
 						continue
 					}
-					key := typeKey(t)
+					key := butKey(t)
 					keys = append(keys, key)
 					butTypes[key] = t
 				}
